@@ -386,6 +386,80 @@ proof fn lemma_fmin_flush(a: Seq<f64>, b: Seq<f64>, acc: f64)
 
 //@@ compute_columnar_aggregate
 
+
+// ---------------- the aggregate pipeline: specs, filter bitmap, one result row -------------------------------------------
+#[verifier::external_body] pub struct Expression { e: u8 }            // AST payload of AggregateSource::Expression (opaque here)
+#[verifier::external_body] pub struct CombinedSchema { s: u8 }
+#[verifier::external_body] pub struct ColumnPredicate { p: u8 }        // filter.rs (its semantics: unit A-filter)
+
+//@@ AggregateSource
+
+//@@ AggregateSpec
+
+/// what compute_columnar_aggregate guarantees for a column source (COUNT(*) / NULL iff no value), as a predicate on the result
+pub open spec fn col_agg_ok(rows: Seq<Row>, c: usize, bm: Option<&[bool]>, op: AggregateOp, v: SqlValue) -> bool {
+    if op == AggregateOp::Count { v == SqlValue::Integer(n_sel(bm, rows.len() as int) as i64) }
+    else { (v is Null) == (n_live(rows, c, bm, rows.len() as int) == 0) }
+}
+// compute_expression_aggregate (SUM(a*b), COUNT(col), ..): NOT under contract; an uninterpreted function of its arguments
+pub uninterp spec fn expr_agg(rows: Seq<Row>, e: Expression, op: AggregateOp, bm: Option<&[bool]>, s: &CombinedSchema) -> Result<SqlValue, ExecutorError>;
+#[verifier::external_body]
+fn compute_expression_aggregate(rows: &[Row], expr: &Expression, op: AggregateOp, filter_bitmap: Option<&[bool]>, schema: &CombinedSchema) -> (r: Result<SqlValue, ExecutorError>)
+    ensures r == expr_agg(rows@, *expr, op, filter_bitmap, schema)
+{ unimplemented!() }
+// `schema.ok_or_else(|| ExecutorError::UnsupportedExpression(..))`
+#[verifier::external_body]
+fn schema_or_err<'a>(schema: Option<&'a CombinedSchema>) -> (r: Result<&'a CombinedSchema, ExecutorError>)
+    ensures schema is Some ==> r == Ok::<&CombinedSchema, ExecutorError>(schema.unwrap()), schema is None ==> r is Err
+{ unimplemented!() }
+// create_filter_bitmap(rows.len(), predicates, |r, c| rows.get(r).and_then(|row| row.get(c))): by the part of its contract needed here
+// (unit A-filter proves it on the real function: one flag per row, true iff every predicate holds on the row)
+pub uninterp spec fn filter_flags(rows: Seq<Row>, preds: Seq<ColumnPredicate>) -> Seq<bool>;
+#[verifier::external_body]
+fn create_filter_bitmap_rows(row_count: usize, predicates: &[ColumnPredicate], rows: &[Row]) -> (r: Result<Vec<bool>, ExecutorError>)
+    ensures r matches Ok(bm) ==> bm@.len() == row_count && bm@ == filter_flags(rows@, predicates@)
+{ unimplemented!() }
+// Option<Vec<bool>>::as_deref()
+#[verifier::external_body]
+fn opt_slice(o: &Option<Vec<bool>>) -> (r: Option<&[bool]>)
+    ensures r is Some <==> *o is Some, r is Some ==> r.unwrap()@ == o.unwrap()@
+{ unimplemented!() }
+// vec![x; n]
+#[verifier::external_body]
+fn vec_repeat<T>(x: T, n: usize) -> (v: Vec<T>) ensures v@.len() == n, forall|i: int| 0 <= i < n ==> v@[i] == x { unimplemented!() }
+// vec![row]
+#[verifier::external_body]
+fn one_row(r: Row) -> (v: Vec<Row>) ensures v@ == seq![r] { unimplemented!() }
+impl Row {
+    #[verifier::external_body]
+    pub fn new(values: Vec<SqlValue>) -> (r: Row) ensures r.values@ == values@ { unimplemented!() }
+}
+impl<'a> ColumnarScan<'a> {
+//@@ scan_new
+}
+/// the bitmap the pipeline filters with
+pub open spec fn pipeline_bm(rows: Seq<Row>, preds: Seq<ColumnPredicate>, bm: Option<&[bool]>) -> bool {
+    if preds.len() == 0 { bm is None } else { bm is Some && bm.unwrap()@ == filter_flags(rows, preds) && bm.unwrap()@.len() == rows.len() }
+}
+/// every result value is the SQL aggregate of its spec
+pub open spec fn results_ok(rows: Seq<Row>, specs: Seq<AggregateSpec>, bm: Option<&[bool]>, schema: Option<&CombinedSchema>, vals: Seq<SqlValue>) -> bool {
+    vals.len() == specs.len() && forall|i: int| 0 <= i < specs.len() ==> match (#[trigger] specs[i]).source {
+        AggregateSource::Column(c) => col_agg_ok(rows, c, bm, specs[i].op, vals[i]),
+        AggregateSource::Expression(e) => schema is Some && expr_agg(rows, e, specs[i].op, bm, schema.unwrap()) == Ok::<SqlValue, ExecutorError>(vals[i]),
+    }
+}
+
+//@@ compute_multiple_aggregates
+
+//@@ execute_columnar_aggregate
+
+fn canary_pipeline(rows: &[Row], ps: &[ColumnPredicate], specs: &[AggregateSpec], schema: Option<&CombinedSchema>)
+    requires rows@.len() < i64::MAX
+{
+    let r = execute_columnar_aggregate(rows, ps, specs, schema);
+    assert(false); // CANARY
+}
+
 fn canary_dispatch(scan: &ColumnarScan, c: usize, op: AggregateOp, bm: Option<&[bool]>)
     requires bm_ok(scan.rows@, bm), scan.rows@.len() < i64::MAX
 {
@@ -426,6 +500,7 @@ fn main() {}
 _A = 'crates/vibesql-executor/src/select/columnar/aggregate.rs'
 _S = 'crates/vibesql-executor/src/select/columnar/scan.rs'
 _SA = 'crates/vibesql-executor/src/select/columnar/simd_aggregate.rs'
+_M = 'crates/vibesql-executor/src/select/columnar/mod.rs'
 
 # R10: `for (i, x) in <iter>.enumerate() { BODY }` is desugared exactly as the language defines it:
 #      let mut it = <iter>; let mut n = 0; loop { match it.next() { None => break, Some(x) => { let i = n; n += 1; BODY } } }
@@ -739,6 +814,44 @@ ITEMS = {
             }
         }),
 """),
+    'AggregateSource': dict(file=_A, path='enum AggregateSource'),
+    'AggregateSpec': dict(file=_A, path='struct AggregateSpec'),
+    'scan_new': dict(file=_S, path="impl<'a> ColumnarScan<'a>::fn new", ret='r', contract="""
+        ensures r.rows@ == rows@,
+"""),
+    'compute_multiple_aggregates': dict(
+        file=_A, path='fn compute_multiple_aggregates', ret='res',
+        rewrites=[_FMT, _TOSTR,
+                  ('re', r'for spec in aggregates \{', 'let mut si__: usize = 0; while si__ < aggregates.len() { let spec = &aggregates[si__]; si__ = si__ + 1;', 1),
+                  ('re', r'let schema = schema\.ok_or_else\(\|\| \{\s*ExecutorError::UnsupportedExpression\(\s*fmt_msg\(\)\s*\)\s*\}\)\?;', 'let schema = schema_or_err(schema)?;', 1)],
+        loops={0: """
+        invariant
+            si__ <= aggregates@.len(), scan.rows@ == rows@, bm_ok(rows@, filter_bitmap), rows@.len() < i64::MAX,
+            results_ok(rows@, aggregates@.subrange(0, si__ as int), filter_bitmap, schema, results@),
+        decreases aggregates@.len() - si__,
+"""},
+        proofs=[('@tail', 'proof { assert(aggregates@.subrange(0, aggregates@.len() as int) =~= aggregates@); }')],
+        contract="""
+    requires bm_ok(rows@, filter_bitmap), rows@.len() < i64::MAX
+    ensures res matches Ok(vals) ==> results_ok(rows@, aggregates@, filter_bitmap, schema, vals@),
+"""),
+    'execute_columnar_aggregate': dict(
+        file=_M, path='fn execute_columnar_aggregate', ret='res',
+        rewrites=[('re', r'aggregate::AggregateSpec', 'AggregateSpec', None),
+                  ('re', r'predicates\.is_empty\(\)', 'predicates.len() == 0', 1),
+                  ('re', r'create_filter_bitmap\(rows\.len\(\), predicates, \|row_idx, col_idx\| \{\s*rows\.get\(row_idx\)\.and_then\(\|row\| row\.get\(col_idx\)\)\s*\}\)', 'create_filter_bitmap_rows(rows.len(), predicates, rows)', 1),
+                  ('re', r'let results = compute_multiple_aggregates\(rows, aggregates, filter_bitmap\.as_deref\(\), schema\)\?;',
+                   'let fb__ = opt_slice(&filter_bitmap); let results = compute_multiple_aggregates(rows, aggregates, fb__, schema)?;', 1),
+                  ('re', r'vec!\[Row::new\((\w+)\)\]', r'one_row(Row::new(\1))', None),
+                  ('re', r'vec!\[([^;\]]+); ([^\]]+)\]', r'vec_repeat(\1, \2)', None),
+                  ('re', r'rows\.is_empty\(\)', 'rows.len() == 0', None)],
+        contract="""
+    requires rows@.len() < i64::MAX
+    ensures
+        // exactly ONE result row (also for an empty table), one value per aggregate, each the SQL aggregate over the rows the filter keeps
+        res matches Ok(out) ==> out@.len() == 1 && exists|bm: Option<&[bool]>| #[trigger] pipeline_bm(rows@, predicates@, bm) && results_ok(rows@, aggregates@, bm, schema, out@[0].values@),
+""",
+        proofs=[('@tail', 'proof { assert(pipeline_bm(rows@, predicates@, fb__)); }')]),
     'can_use_simd_for_column': dict(
         file=_SA, path='fn can_use_simd_for_column', ret='r',
         rewrites=[('re', r'for \((\w+), (\w+)\) in (scan\.column\(column_idx\))\.enumerate\(\) \{',
@@ -816,13 +929,16 @@ OBLIGATIONS = {
     'compute_max': ['post:fold_of_strictly_larger_over_selected_non_null_values__null_iff_none', 'proof:loop_invariant'],
     'lemma_fold_none_iff_no_live': ['post:fold_is_none_iff_no_live_value'],
     'can_use_simd_for_column': ['safety:no_panic_terminates'],
+    'new': ['post:scan_over_the_rows'],
+    'compute_multiple_aggregates': ['post:one_value_per_spec_each_the_aggregate_of_its_source', 'proof:loop_invariant'],
+    'execute_columnar_aggregate': ['post:exactly_one_row_also_for_empty_input__values_are_the_aggregates_over_the_filtered_rows'],
     'compute_columnar_aggregate': ['post:count_is_count_star__others_null_iff_no_non_null_value_on_every_path'],
     'simd_aggregate_f64': ['post:count__null_iff_none__min_max_are_the_machine_fold_over_all_values__error_iff_non_numeric', 'safety:no_overflow_of_count', 'proof:loop_invariant_over_batches'],
     'lemma_fvals_len': ['post'], 'lemma_fmax_flush': ['post:running_max_extends_over_a_batch_by_associativity'], 'lemma_fmin_flush': ['post:running_min_extends_over_a_batch_by_associativity'],
     'simd_aggregate_i64': ['post:count_sum_avg_min_max_over_selected_non_null_integers__null_iff_none__error_iff_non_integer', 'safety:no_overflow_of_i128_sum_and_i64_count', 'proof:loop_invariant_over_batches'],
     'lemma_ivals_len': ['post:ivals_length_is_live_count'], 'ssum_append': ['post:sum_of_concatenation'], 'ssum_bound': ['post:sum_bounded_by_length'], 'lemma_min_flush': ['post:running_min_extends_over_a_batch'], 'lemma_max_flush': ['post:running_max_extends_over_a_batch'],
 }
-CANARIES = ['canary_sum', 'canary_avg', 'canary_count', 'canary_dispatch', 'canary_i64']
+CANARIES = ['canary_sum', 'canary_avg', 'canary_count', 'canary_dispatch', 'canary_i64', 'canary_pipeline']
 TRUSTED = [
     'external_body Opq: String / Date / Time / Timestamp / Interval payloads of SqlValue and error messages (never inspected by these functions)',
     'external_body SqlValue::clone: Clone is a copy',
@@ -837,6 +953,8 @@ TRUSTED = [
     'SUM / AVG on the float driver: only "is a Double, NULL iff no value" is stated (batched float addition is not associative; no value-level spec)',
     'external_body i64_min / i64_max: std i64::min / i64::max; i64_cmp / i16_cmp: Ord::cmp on integers; f32_cmp / f64_cmp: partial_cmp(..).unwrap_or(Equal) on floats, only "is Less" is used (uninterpreted f32_lt / f64_lt)',
     'compare_for_min_max answers "not less" for every pair that is not two numerics of the same variant (strings, dates, mixed variants): MIN / MAX over such columns keep the FIRST value - stated as is (lt_spec), not judged',
+    'external_body compute_expression_aggregate (SUM(a*b), COUNT(col), AVG(expr), ..): NOT under contract, an uninterpreted function of its arguments; Expression / CombinedSchema / ColumnPredicate opaque; schema_or_err: Option::ok_or_else; opt_slice: Option<Vec<bool>>::as_deref; one_row: vec![row]; vec_repeat: vec![x; n]; Row::new',
+    'external_body create_filter_bitmap_rows: create_filter_bitmap called with the closure |r, c| rows.get(r).and_then(|row| row.get(c)), by the length part of its contract (proved on the real function in unit A-filter) and an uninterpreted content',
     'R10 rewrite: for (i, x) in it.enumerate() desugared to its definition (loop / next / break with a usize counter)',
     'f64 `+=` / `as f64` / `/` rewritten to the fadd / f64_of_* / fdiv stubs (Verus does not interpret float arithmetic)',
 ]
